@@ -635,12 +635,39 @@ OpResult Hist::run_op(const HOp& op0) {
       if (ref_depth(shape) > impl_max_stack()) break;
       std::vector<uint8_t> by;
       if (op.code == OP_LOAD_RAW && (op.d & 1)) { Rng wr(op.c, "wire"); gen_encode(wr, shape, by); } else by = ref_encode(shape);   // what arrives need not be in preferred form
+      // one raw load in six arrives damaged (cut short, one bit flipped, or wrapped into a chunked string where it has no business):
+      // whatever the decoder makes of it, a load that returns NULL must hand back every block it took
+      bool damaged = op.code == OP_LOAD_RAW && (op.d & 2) && !(op.d & 28) && (op.c >> 40) % 3 == 0 && !by.empty() && by.size() < 4000;
+      RefLoad dref;
+      if (damaged) {
+        Rng dm(op.c, "damage");
+        switch (dm.below(4)) {
+          case 0: by.resize(dm.below(by.size())); break;
+          case 1: by[dm.below(by.size())] ^= (uint8_t)(1u << dm.below(8)); break;
+          default: {
+            bool text = dm.chance(1, 2); std::vector<uint8_t> w; w.push_back(text ? 0x7f : 0x5f);
+            if (dm.chance(1, 2)) { w.push_back(text ? 0x61 : 0x41); w.push_back('x'); }
+            if (dm.chance(1, 4)) { w.push_back(text ? 0x7f : 0x5f); w.push_back(0xff); }
+            w.insert(w.end(), by.begin(), by.end());
+            if (dm.chance(1, 2)) { w.push_back(text ? 0x61 : 0x41); w.push_back('y'); }
+            if (dm.chance(3, 4)) w.push_back(0xff);
+            by.swap(w);
+          }
+        }
+        if (by.empty()) by.push_back(0xff);
+        dref = ref_load(by.data(), by.size(), impl_max_stack(), sa_max_request());
+      }
       unsigned char* buf = (unsigned char*)malloc(by.size()); memcpy(buf, by.data(), by.size());
       struct cbor_load_result res; memset(&res, 0xA5, sizeof res);
       OpScope S(*this, op, "C03"); S.begin(op);
       cbor_item_t* it = cbor_load(buf, by.size(), &res);
       S.end(); R.executed = true; R.requests = S.w.requests; R.refused = S.refused;
       memset(buf, 0x5A, by.size()); free(buf);        // the input may be released at once
+      if (damaged && S.w.refused == 0) {
+        stat_add("damaged_loads");
+        if (!it) { stat_add("damaged_loads_rejected"); S.account(); break; }     // nothing was produced: nothing may stay allocated (op-leaks-block)
+        cbor_decref(&it); stat_add(dref.st == R_ITEM ? "damaged_loads_still_wellformed" : "damaged_loads_accepted_unexpectedly"); break;   // what is accepted, and as what, is C05's and C14's business (w_seq), not judged here
+      }
       if (S.w.refused > 0) {
         R.reported_failure = it == nullptr;
         if (it) { fail("C06,C05", "load-succeeds-despite-refused-allocation", S.ctx + ": allocation refused but an item was returned"); return R; }
